@@ -18,8 +18,9 @@ def _pre(reject_ids):
 
 
 def _backlog_stream(case, obs):
-    """stream() through a server whose single slot is taken for 0.5 s per request, with a 0.15 s stream timeout: the submission of the
-    second element fails with ServerBacklogFull on both sides; what the consumer sees (outputs, then how it ends) must be the same."""
+    """stream() through a server whose single slot is taken for 0.5 s per request, with a 0.15 s stream timeout: the first element is not
+    ready by its deadline and the submission of the second fails with ServerBacklogFull, on both sides; what the consumer sees (outputs, then how
+    it ends) must be the same."""
     from mpservice.mpserver import AsyncServer, Server, ThreadServlet
     from vlib.srvtargets import TagWorker
 
@@ -77,6 +78,8 @@ def _strip_wait(z):
     # ServerBacklogFull(n, seconds waited): the wait is a measurement
     if isinstance(z, tuple) and len(z) == 3 and z[0] == 'EXC' and z[1] == 'ServerBacklogFull':
         return ('EXC', 'ServerBacklogFull')
+    if isinstance(z, tuple) and len(z) == 3 and z[0] == 'EXC' and z[1] == 'TimeoutError' and z[2] and isinstance(z[2][0], str) and 'seconds total' in z[2][0]:
+        return ('EXC', 'TimeoutError')  # the element was not ready by its deadline; the message carries measured seconds
     if isinstance(z, (tuple, list)):
         return type(z)(_strip_wait(a) for a in z)
     return z
